@@ -177,4 +177,52 @@ example : (match Versatiles.write toyEnc demoSource with
     | _ => []) = [.ok (some [1, 2, 3]), .ok (some [1, 2, 3]), .ok none, .ok (some [9]), .ok none] := by
   decide
 
+/-! ### the hypotheses of the round-trip theorems are satisfiable -/
+
+section nonvacuity
+open VtProofs.PMTilesWrite VtProofs.VersatilesGrid VtProofs.VersatilesWrite
+def lv0 : BBox := ⟨0, 0, 0, 0, 0⟩
+def demoTiles : Nat × Nat × Nat → Option Bytes := fun p => if p = (0, 0, 0) then some [1] else none
+def demoStream : BBox → List PMTiles.Tile := fun c => if c = lv0 then [((0, 0, 0), [1])] else []
+
+theorem grid_lv0 : PMTiles.grid256 lv0 = [lv0] := by decide
+theorem grid_lv0' : Versatiles.grid256 lv0 = [lv0] := by decide
+
+example : GoodStream [lv0] demoStream demoTiles := by
+  refine ⟨?_, ?_, ?_, ?_, ?_, ?_⟩
+  · intro L hL; simp at hL; subst hL; exact ⟨by decide, by decide, by decide, by decide, by decide⟩
+  · simp
+  · intro L hL c hc
+    simp at hL; subst hL
+    rw [grid_lv0] at hc; simp at hc; subst hc
+    refine ⟨?_, ?_, ?_⟩
+    · intro t ht; simp [demoStream] at ht; subst ht; exact ⟨by decide, rfl⟩
+    · simp [demoStream]
+    · intro t ht; simp [demoStream] at ht; subst ht; decide
+  · intro L hL c hc t ht
+    simp at hL; subst hL
+    rw [grid_lv0] at hc; simp at hc; subst hc
+    simp [demoStream] at ht; subst ht; rfl
+  · intro L hL c hc x y b hcon htl
+    simp at hL; subst hL
+    rw [grid_lv0] at hc; simp at hc; subst hc
+    rw [contains2_iff] at hcon
+    simp only [lv0] at hcon
+    have hx : x = 0 := by omega
+    have hy : y = 0 := by omega
+    subst hx hy
+    simp [demoTiles, lv0] at htl
+    subst htl
+    simp [demoStream, lv0]
+  · intro x y z b h
+    simp only [demoTiles] at h
+    split at h
+    · rename_i hp
+      injection hp with h1 h2
+      injection h2 with h2 h3
+      subst h1 h2 h3
+      exact ⟨lv0, by simp, rfl, by decide⟩
+    · cases h
+end nonvacuity
+
 end VtProps.C01
